@@ -197,6 +197,11 @@ def check_C01(A: Analysis, tier):
                          "some elements are hashed but not stored, so the file at objects/<digest> does not have that digest", A.p.loc(w.func, w.node))
         for e in ("store_object", "store_metadata"):
             for ev in A.api(e, m).events:
+                if ev.kind == "SETLEN" and any(c.cls == "TMP" for c in ev.classes[0]):
+                    re1.ob()
+                    re1.fail(ev.func, ev.node, f"{ev.prim} sets the LENGTH of the temp file being written (a reservation is not a hint: the file is as long as "
+                             "announced, whatever is written): a stream shorter than the announced size is published zero-padded under the digest of the "
+                             "unpadded content, and the size check passes", A.p.loc(ev.func, ev.node))
                 if ev.kind == "HANDLEOP" and ev.prim in ("file.seek", "file.truncate") and any(c.cls == "TMP" for c in ev.classes[0]):
                     re1.ob()
                     re1.fail(ev.func, ev.node, f"{ev.prim} on the temp file being written: the writer must append every element; moving the position leaves "
@@ -2070,6 +2075,23 @@ def check_C20(A: Analysis, tier):
     if not nparsers:
         raise AnalysisError("no ArgumentParser construction found in hashstoreclient.py (anchor lost)")
     rules.append(rh20)
+
+    ri20 = Rule("C20", "C20.i", "the client's own housekeeping cannot make a verb fail where the API call succeeds: a file the client creates for itself "
+                "(its log) is created in a way that tolerates a concurrent client having just created it (no exclusive create behind a separate "
+                "existence test, unless FileExistsError is handled)", floor=1)
+    for ev in it.events:
+        if ev.prim == "open" and ev.kind in ("CREATE", "WRITE") and ev.func.module.name == "hashstoreclient":
+            ri20.ob()
+            ri20.inst(f"{ev.func.qual}:{ev.line} open(mode={ev.extra.get('mode')!r})")
+            if str(ev.extra.get("mode") or "").startswith("x"):
+                tolerant = any(in_body(ev.node, t.body) and any((h_.type is None or any(x in ast.unparse(h_.type) for x in ("FileExistsError", "OSError", "Exception")))
+                                                                and not any(isinstance(x, ast.Raise) for b_ in h_.body for x in ast.walk(b_)) for h_ in t.handlers)
+                               for t in enclosing(ev.node, ast.Try))
+                if not tolerant:
+                    ri20.fail(ev.func, ev.node, "the client creates its own file with open(..., 'x') after a separate existence test: of two clients started together on a store "
+                              "without that file, the second dies with FileExistsError before it reaches the API - its verb has no effect although the API call would succeed",
+                              A.p.loc(ev.func, ev.node))
+    rules.append(ri20)
 
     rf = Rule("C20", "C20.f", "the create-store verb always hands the command-line properties to the API constructor "
               "(whether they are acceptable for an existing store is the API's decision, not the client's)", floor=1)
